@@ -16,20 +16,24 @@ fn roadmap_eq(a: &Roadmap, b: &Roadmap) -> bool {
     a.len() == b.len() && a.iter().zip(b).all(|(x, y)| bits_eq(&x.0, &y.0) && x.1 == y.1)
 }
 
-/// Outcome of the next motion check in `vlog[pos..]` for a motion ending at `to`.
-fn next_motion<K: Kind>(ks: &KSpace<K>, vlog: &[(Vec<f64>, bool)], mut pos: usize, to: &[f64]) -> Option<(bool, usize)> {
-    let tol = seg_tol(&ks.cfg, 0.0) + dist_tol(&ks.cfg, to, to);
-    while pos < vlog.len() {
-        let (s, ans) = &vlog[pos];
-        pos += 1;
-        if !*ans {
-            return Some((false, pos));
-        }
-        if bits_eq(s, to) || ks.d(s, to) <= tol {
-            return Some((true, pos));
-        }
+/// Outcome of the motion check whose queries start at `vlog[pos]` (all queries carrying the same
+/// motion-check id): Some((passed, position after it)).
+fn next_motion(vlog: &[(Vec<f64>, bool)], ids: &[u64], pos: usize) -> Option<(bool, usize)> {
+    if pos >= vlog.len() {
+        return None;
     }
-    None
+    let id = ids[pos];
+    if id % 2 == 0 {
+        // not inside a motion check (the counter is odd exactly while one runs)
+        return None;
+    }
+    let mut p = pos;
+    let mut ok = true;
+    while p < vlog.len() && ids[p] == id {
+        ok &= vlog[p].1;
+        p += 1;
+    }
+    Some((ok, p))
 }
 
 fn c18_k<K: Kind>(case: &PlanCase, trace: &Trace, ctx: &mut Ctx) {
@@ -112,6 +116,7 @@ fn c18_k<K: Kind>(case: &PlanCase, trace: &Trace, ctx: &mut Ctx) {
                     // within the radius, in index order. This yields, exactly, which pairs must
                     // be linked, and the log slice that validated each link.
                     let vlog = &trace.rec.vlog[st.vlog.0..st.vlog.1];
+                    let ids = &trace.rec.vmotion[st.vlog.0..st.vlog.1];
                     let mut pos = 0usize;
                     let mut built = 0usize; // milestones so far
                     let mut comps = 0;
@@ -134,7 +139,7 @@ fn c18_k<K: Kind>(case: &PlanCase, trace: &Trace, ctx: &mut Ctx) {
                             let d = ks.d(&rm[a].0, &rm[b].0);
                             let linked = rm[a].1.contains(&b);
                             if d < radius {
-                                let Some((ok, np)) = next_motion(&ks, vlog, pos, &rm[b].0) else {
+                                let Some((ok, np)) = next_motion(vlog, ids, pos) else {
                                     ctx.fail("C18:pair-within-radius-not-motion-checked", format!("milestones {b} and {a} are {d:e} apart (< radius {radius:e}) but the log holds no motion check between them"));
                                     break 'replay;
                                 };
@@ -203,11 +208,12 @@ fn c18_k<K: Kind>(case: &PlanCase, trace: &Trace, ctx: &mut Ctx) {
                 }
                 // reference: start connections, in milestone order, from the ordered log
                 let vlog = &trace.rec.vlog[st.vlog.0..st.vlog.1];
+                let ids = &trace.rec.vmotion[st.vlog.0..st.vlog.1];
                 let mut pos = 1.min(vlog.len()); // is_valid(start)
                 let mut s_set = Vec::new();
                 for (k, (ms, _)) in rm.iter().enumerate() {
                     if ks.d(&prob.start, ms) < radius {
-                        match next_motion(&ks, vlog, pos, ms) {
+                        match next_motion(vlog, ids, pos) {
                             Some((ok, p)) => {
                                 pos = p;
                                 if ok {
